@@ -700,12 +700,12 @@ theorem updateW_only (pr : PrInfo) : ∀ (ds : List Dest) (l : Loc) (prev : Comm
     | none => exact OnlyW.refl _ _ _
     | some t =>
       simp only
-      cases hm : l.merge (.w d pr.src) [t, prev] with
+      cases hm : l.mergeN pr.noOct (.w d pr.src) t prev with
       | none => exact OnlyW.refl _ _ _
       | some l' =>
         simp only
         have h1 : OnlyW pr.src (d :: ds) l.refs l'.refs :=
-          fun x hx => Loc.merge_other hm x (hx d List.mem_cons_self)
+          fun x hx => Loc.mergeN_other hm x (hx d List.mem_cons_self)
         cases l'.refs.get (.w d pr.src) with
         | none => exact h1
         | some c =>
@@ -723,7 +723,7 @@ theorem updateW_done_w_prs (pr : PrInfo) : ∀ (ds : List Dest) (l : Loc) (prev 
     | none => exact hd
     | some t =>
       simp only
-      cases l.merge (.w d pr.src) [t, prev] with
+      cases l.mergeN pr.noOct (.w d pr.src) t prev with
       | none => exact hd
       | some l' =>
         simp only
@@ -863,7 +863,7 @@ theorem mergeRest_other (pr : PrInfo) : ∀ (ds : List Dest) {l l' : Loc} {prevD
     | some wc =>
       rw [hw] at hm
       simp only at hm
-      cases hm1 : l.merge (.dest d) [prevD, wc] with
+      cases hm1 : l.mergeD pr.noOct (.dest d) prevD wc with
       | none => simp [hm1] at hm
       | some l1 =>
         rw [hm1] at hm
@@ -874,7 +874,7 @@ theorem mergeRest_other (pr : PrInfo) : ∀ (ds : List Dest) {l l' : Loc} {prevD
           rw [hd] at hm
           simp only at hm
           rw [mergeRest_other pr ds hm x hx]
-          exact Loc.merge_other hm1 x (hx d)
+          exact Loc.mergeD_other hm1 x (hx d)
 
 theorem createQ_wok (S : Dest → String → Prop) (base : RefMap) : ∀ (ds : List Dest) (l : Loc),
     (∀ op ∈ (createQ l ds).2, op.WOk S base) ∧ ∀ x, (∀ d, x ≠ .q d) → (createQ l ds).1.refs.get x = l.refs.get x
